@@ -361,6 +361,17 @@ impl Server {
 
         let paths = self.database.graph().paths();
 
+        // node ids grow with every edit; order by where a node is (note, line) so that the
+        // result does not depend on the editing history. For a freshly loaded library this is
+        // the order of the ids.
+        let place = |id: NodeId| {
+            (
+                self.database.graph().node(id).node_key(),
+                self.database.graph().node_line_number(id).unwrap_or(0),
+                id,
+            )
+        };
+
         paths
             .iter()
             .filter(|p| p.contains(id) || p.contains(id2))
@@ -368,7 +379,7 @@ impl Server {
             .sorted_by(|a, b| {
                 for (x, y) in a.ids().iter().zip(b.ids().iter()) {
                     if x != y {
-                        return y.cmp(x); // For descending order
+                        return place(*y).cmp(&place(*x)); // For descending order
                     }
                 }
                 b.ids().len().cmp(&a.ids().len()) // If all elements are equal, compare b
